@@ -452,11 +452,12 @@ Doubles(offs, singles, encLen) ==
   UNION {{[c EXCEPT !.k = c.k \o "+trunc", !.cut = offs[j]] :
             j \in {jj \in 2..Len(offs) : offs[jj] > c.at /\ offs[jj] < encLen}} : c \in singles}
 
-Corruptions(G, vals, ef, offs, enc, encLen) ==
+Corruptions(G, vals, ef, offs, enc, encLen, isBase) ==
   IF CorrMode = "none" THEN {}
   ELSE LET single == LenCorrs(G, vals, offs, Len(enc)) \cup TagCorrs(G, ef, offs) \cup TextCorrs(G, ef, offs)
        IN Truncs(encLen) \cup single \cup Raws
-          \cup Flips(enc, encLen, IF CorrMode = "all" THEN 0..7 ELSE {0, 7})
+          \* basic: bits 0 and 7 of every byte of the base vector; all: all bits, every vector
+          \cup (IF CorrMode = "all" THEN Flips(enc, encLen, 0..7) ELSE IF isBase THEN Flips(enc, encLen, {0, 7}) ELSE {})
           \cup (IF CorrMode = "all" THEN Doubles(offs, single, encLen) ELSE {})
 
 -----------------------------------------------------------------------------
@@ -497,7 +498,7 @@ CorruptionsOf(k) ==
   LET G == Grammar(k.rec)
       vals == Vals(k.rec, k.cv)
       ef == [i \in 1..Len(k.cv) |-> EncField(G[i], vals[i])]
-  IN Corruptions(G, vals, ef, Offsets(ef), k.enc, Len(k.enc) - k.rest)
+  IN Corruptions(G, vals, ef, Offsets(ef), k.enc, Len(k.enc) - k.rest, k.cv = BaseVec(k.rec))
 
 -----------------------------------------------------------------------------
 (* the specification *)
